@@ -54,6 +54,9 @@ def pool_header(rng, ptype=None, src=None):
         if ns > 64:
             h["ns"] = ns = 64
         h["bs"] = rng.choice([512, 1024, 2048, 4096])
+        if rng.random() < 0.5:      # a small storage that a few blocks use up
+            h["ssz"] = 2048
+            h["bs"] = rng.choice([256, 512, 1024])
     elif src == "virtual":
         h["bs"] = 4096                     # one page per block, 6 blocks reserved
         h["ns"] = ns = rng.choice([64, 100, 200, 256, 500, 1000])   # few nodes per page so that blocks run out
@@ -187,6 +190,9 @@ def stack_header(rng, src=None):
     h = {"fam": "stack", "src": src, "place": rng.choice(["lo", "hi"]),
          "member": 1 if rng.random() < 0.3 else 0}
     h["bs"] = rng.choice([512, 1024, 2048]) if src == "static" else 4096 if src == "virtual" else rng.choice([64, 100, 128, 200, 256, 500, 1024])
+    if src == "static" and rng.random() < 0.5:
+        h["ssz"] = 2048
+        h["bs"] = rng.choice([256, 512, 1024])
     if src in ("grow", "fixed") and rng.random() < 0.35:
         h["down"] = 1      # every new upstream block lies below the earlier ones
     return h
@@ -295,6 +301,9 @@ def arena_header(rng, src=None):
     src = src or rng.choice(["grow", "grow", "static", "virtual", "fixed"])
     h = {"fam": "arena", "src": src, "cached": rng.choice([0, 1, 1]), "place": rng.choice(["lo", "hi"])}
     h["bs"] = rng.choice([1024, 2048, 4096]) if src == "static" else 4096 if src == "virtual" else rng.choice([64, 100, 256])
+    if src == "static" and rng.random() < 0.6:
+        h["ssz"] = 2048
+        h["bs"] = rng.choice([256, 512, 1024])
     if src in ("grow", "fixed") and rng.random() < 0.3:
         h["down"] = 1
     return h
